@@ -3,7 +3,7 @@ CONSTANTS
   N = 3
   Level = "host"
   SelfRef = TRUE
-  OwnerRef = TRUE
+  OwnerRef = FALSE
   AllowFail = TRUE
 INVARIANT InjectSound
 INVARIANT Quiescent
